@@ -405,6 +405,7 @@ def run(ctx):
         ctx.count('sequence_probes', nseq)
     # R10: to_posit is the single posit-rule rounding of the accumulator's value, for every state: rounding cells (sign, leading-one position, rounding case)
     import rules_rounding
+    ctx.trusted += [t for t in rules_rounding.TRUSTED if t not in ctx.trusted]
     ctx.rules.append('R10 rounding cells of the accumulator: (sign, leading-one position, rounding case[, lowest set bit for negative multi-limb states]); '
                      'to_posit vector == correctly rounded encoding of the fixed-point value')
     thorough = ctx.tier == 'thorough'
